@@ -153,7 +153,13 @@ func VerifC10Faults() {
 			symAssert(errors.Is(err, errExpr) || errors.Is(err, errWrite), "the error wraps one of the causes")
 		}
 	}
-	// a failed (or successful) render never alters a later one, also through the pools
+	// a failed (or successful) render never alters a later one, also through the pools:
+	// first into the very same writer value, now healthy again ...
+	w.failAt, w.mode, w.hit, w.got = 1<<30, 0, false, nil
+	errSame := Page(&faults{}, items).Render(context.Background(), w)
+	symAssert(errSame == nil, "a later render into the same (recovered) writer succeeds")
+	symAssert(string(w.got) == string(D), "a later render into the same writer yields the full document")
+	// ... then into a fresh one
 	again := &faultWriter{failAt: 1 << 30}
 	err2 := Page(&faults{}, items).Render(context.Background(), again)
 	symAssert(err2 == nil, "a later render succeeds")
